@@ -228,8 +228,8 @@ def _main_check(ctx: Ctx) -> None:
             return src(R().visit(clone(e)))
         dtxt = neutral(d) if d is not None else None
         if d is not None and isinstance(d, ast.Name) and d.id in derived:
-            dtxt = T.rename_sig(nz.norm(derived[d.id].value).canon())
-            ddtxt = T.rename_sig(Normaliser(atom_hook=T.field_hook({})).norm(dinit[dd.id]).canon()) if isinstance(dd, ast.Name) and dd.id in dinit else src(dd)
+            dtxt = T.neutral_capacity(derived[d.id].value, fe.node, nz)
+            ddtxt = T.neutral_capacity(dinit[dd.id], fd.node) if isinstance(dd, ast.Name) and dd.id in dinit else src(dd)
         else:
             ddtxt = src(dd)
         ok = d is not None and dtxt == ddtxt
